@@ -152,6 +152,7 @@ type Obligation struct {
 	Model  string
 	Output string
 	Static bool // decided by the engine without a solver
+	splitDone bool
 }
 
 type WriteSet struct {
